@@ -29,7 +29,12 @@ func TestMain(m *testing.M) { kit.Main(m, "C05") }
 // Inner is one request sent inside the (decrypted) connection.
 type Inner struct {
 	// Form: origin (origin-form with Host), nohost (HTTP/1.0, origin-form, no
-	// Host header), abs-http, abs-https (absolute-form targets).
+	// Host header), abs-http, abs-https (absolute-form targets);
+	// nested-abandoned: not a request of its own but a step - a CONNECT to a
+	// further host sent inside the decrypted connection (the tunnel's host is
+	// itself a proxy for the client), answered 200, whose TLS handshake the
+	// client abandons with an alert because it does not trust the certificate
+	// it is shown; the decrypted connection is intact and is used on.
 	Form   string `json:"form"`
 	Hijack bool   `json:"hijack,omitempty"` // the request modifier hijacks on this request
 	// MarkInsecure: the request modifier calls Session.MarkInsecure() on this request.
@@ -415,6 +420,33 @@ func runOnce(c Case, T time.Duration) (v kit.Verdict) {
 	for i, in := range c.Inner {
 		time.Sleep(time.Duration(c.GapMs) * time.Millisecond)
 		id := fmt.Sprintf("x%d", i)
+		if in.Form == "nested-abandoned" {
+			conn.SetWriteDeadline(time.Now().Add(5 * time.Second))
+			fmt.Fprintf(conn, "CONNECT nested.test:443 HTTP/1.1\r\nHost: nested.test:443\r\nX-Verif-Id: nested%d\r\n\r\n", i)
+			conn.SetReadDeadline(time.Now().Add(T))
+			res, err := http.ReadResponse(br, &http.Request{Method: "CONNECT"})
+			if err != nil || res.StatusCode != 200 || br.Buffered() != 0 {
+				class := "no-200"
+				if netkit.IsTimeout(err) {
+					class = "timeout-connect"
+				}
+				v.Addf("C05/"+m+"/nested-connect/"+class, "CONNECT inside the decrypted connection: %v %v (%d bytes behind the answer)", res, err, br.Buffered())
+				break
+			}
+			conn.SetDeadline(time.Now().Add(T))
+			nested := tls.Client(conn, &tls.Config{RootCAs: x509.NewCertPool(), ServerName: "nested.test"})
+			if err := nested.Handshake(); err == nil {
+				v.Addf("C05/harness/nested-handshake-succeeded", "the client trusts no authority for the nested tunnel, yet its handshake succeeded")
+				break
+			}
+			// The alert is on its way. What the proxy had sent of its side of the
+			// abandoned handshake beyond the certificate left in the same write and
+			// has arrived with it: the client discards it.
+			conn.SetReadDeadline(time.Now().Add(40 * time.Millisecond))
+			io.Copy(io.Discard, br)
+			conn.SetDeadline(time.Time{})
+			continue
+		}
 		var reqLine, hostHdr, wantHost string
 		switch in.Form {
 		case "origin":
@@ -670,6 +702,20 @@ func genCase(t *rapid.T) Case {
 		if in.Hijack {
 			break
 		}
+	}
+	if !c.PlainInside && len(c.Inner) >= 2 && !c.Inner[len(c.Inner)-1].Hijack && rapid.IntRange(0, 5).Draw(t, "nested_abandoned") == 0 {
+		// somewhere before the last request; which authority a Host-less request
+		// falls back to after a further CONNECT is not defined by the statement
+		at := rapid.IntRange(0, len(c.Inner)-1).Draw(t, "nested_at")
+		inner := append([]Inner(nil), c.Inner[:at]...)
+		inner = append(inner, Inner{Form: "nested-abandoned"})
+		for _, in := range c.Inner[at:] {
+			if in.Form == "nohost" {
+				in.Form = "origin"
+			}
+			inner = append(inner, in)
+		}
+		c.Inner = inner
 	}
 	if !transparent && rapid.IntRange(0, 3).Draw(t, "before") == 0 {
 		c.Before = rapid.SliceOfN(rapid.IntRange(0, 2), 1, 2).Draw(t, "before_stages")
